@@ -214,12 +214,12 @@ hooks.config.Eups.globalTags += [%(tags)s]
 """
 
 
-def mkstacks(root, nstacks=1, extra_tags=("beta",), default_product=False, users=("A",)):
-    """Create empty stacks root/stack0.. and one EUPS_USERDATA per user; point the environment at
-    them (user users[0]).  Returns (stacks, {user: userdata})."""
+def mkstacks(root, nstacks=1, extra_tags=("beta",), default_product=False, users=("A",), names=None):
+    """Create empty stacks root/stack0.. (or root/<names[i]>) and one EUPS_USERDATA per user; point the
+    environment at them (user users[0]).  Returns (stacks, {user: userdata})."""
     stacks = []
     for i in range(nstacks):
-        s = os.path.join(root, "stack%d" % i)
+        s = os.path.join(root, names[i] if names else "stack%d" % i)
         os.makedirs(os.path.join(s, "ups_db"))
         stacks.append(s)
     uds = {}
